@@ -148,7 +148,7 @@ def run(eng, tier):
         ('ask-size-sub', 'D(size guard)', lambda e: ab(e, 'uint_Sub') and e['abort'][1] == F(ASK, 'size') and e['abort'][2] == SIZE),
         ('fee-refund-sub', 'D(L-mono)', lambda e: ab(e, 'uint_Sub') and e['abort'][1][0] == 'sub' and e['abort'][2][0] == 'sub' and e['abort'][1][1] == e['abort'][2][1] == SUB(F(SOMEV(F(BID, 'fee')), 'amount'), F(BID, 'accumulated_fee'))),
         ('decimal-conversion', 'D(L-fit)', lambda e: ab(e, 'unwrap') and e['abort'][1][0] == 'rcall' and e['abort'][1][1] in ('from_u128', 'checked_div')),
-        ('action-name-serialisation', 'D(unit enum serialises)', lambda e: ab(e, 'unwrap') and 'ContractAction' in e['key']),
+        ('action-name-serialisation', 'D(unit enum serialises)', lambda e: is_unit_enum_serialisation(e)),
         ('zero-amount-marker-transfer', 'I', lambda e: ab(e, 'unwrap') and 'transfer amount must be > 0' in e['key']),
     ]
     matched = check_table(eng, PROP, refs, V_, T, TA, 'a match request')
